@@ -11,7 +11,11 @@ cd $WT && git checkout -q -- . && git status --short | grep -v _build
 build_demo && /tmp/mut/confirm/${PID}_demo$N > /tmp/mut/confirm/${PID}_demo$N.clean.txt 2>&1; echo "demo on unchanged tree: exit $?"
 git apply $D/mut$N.diff || { echo "PATCH FAILED"; exit 1; }
 cmake --build _build -j $JOBS > /tmp/mut/confirm/${PID}_mut$N.build.log 2>&1; echo "build with change: exit $?"
-ctest --test-dir _build -j $JOBS --timeout 900 > /tmp/mut/confirm/${PID}_mut$N.ctest.log 2>&1; echo "ctest with change: exit $?"; grep "tests passed\|tests failed" /tmp/mut/confirm/${PID}_mut$N.ctest.log
+ctest --test-dir _build -j $JOBS --timeout 900 > /tmp/mut/confirm/${PID}_mut$N.ctest.log 2>&1; RC=$?; echo "ctest with change (parallel): exit $RC"; grep "tests passed\|tests failed" /tmp/mut/confirm/${PID}_mut$N.ctest.log
+if [ $RC -ne 0 ]; then
+  # the suite's tests call ninja at run time; parallel runs occasionally race on the ninja log: re-run the failed ones serially
+  ctest --test-dir _build --rerun-failed --timeout 900 > /tmp/mut/confirm/${PID}_mut$N.ctest2.log 2>&1; echo "ctest rerun of failed tests (serial): exit $?"; grep "tests passed\|tests failed" /tmp/mut/confirm/${PID}_mut$N.ctest2.log
+fi
 build_demo && /tmp/mut/confirm/${PID}_demo$N > /tmp/mut/confirm/${PID}_demo$N.mut.txt 2>&1; echo "demo with change: exit $?"
 tail -3 /tmp/mut/confirm/${PID}_demo$N.mut.txt
 git checkout -q -- .
